@@ -300,8 +300,20 @@ func rangeLemmas(r *Run, cfg rcConfig, items []rangeItem) {
 			chip.RangeCheckWithMaxBits(gl.NewVariable(pad), 32)
 		}
 	}
-	if err := e.RunDeferred(); err != nil {
-		r.Infra("cfg %s: deferred callback failed: %v", cfg, err)
+	var derr error
+	if pm := catchPanic(func() { derr = e.RunDeferred() }); pm != "" || derr != nil {
+		// the circuit cannot be defined under this configuration: confirm with the real builder on the
+		// first gadget (an in-range value must be accepted, so a refusal at compile time is the violation)
+		msg := pm
+		if msg == "" {
+			msg = derr.Error()
+		}
+		g := &gadgetReplay{Kind: "gadget", Gadget: items[0].gadget, N: replayN(items[0].gadget, 8), Cfg: cfg.replayCfg(), In: []string{"1"}, Expect: "rejected"}
+		if acc, rmsg := runGadgetReplay(g); !acc && strings.Contains(rmsg, "compile") {
+			r.addViolationWithReplay("range checker configuration "+cfg.String()+" refuses every circuit", fmt.Sprintf("under the %s configuration the deferred part of the circuit definition fails (%s): no circuit can be built, so valid proofs cannot be accepted under this configuration", cfg, short(msg, 100)), toMap(g), "real builder: "+short(rmsg, 120))
+		} else {
+			r.Infra("cfg %s: deferred callback failed: %s (real builder: accepted=%v %s)", cfg, short(msg, 100), acc, short(rmsg, 80))
+		}
 		return
 	}
 	e.Refine()
